@@ -33,7 +33,7 @@ def r_visitor(root):
     out = []; inst = 0
     t = load(root, L)
     # ---------------- C22.d
-    vp = find(t, "TextXVisitor.visit_rule_params"); g = CFG(vp)
+    vp = find_i(root, L, "TextXVisitor.visit_rule_params"); g = CFG(vp)
     loop = next((n for n in vp.body if isinstance(n, ast.For)), None)
     if loop is None: raise AnalysisError("visit_rule_params: loop not found")
     stores = [n for n in g.nodes if n.kind == "stmt" and isinstance(n.ast, ast.Assign) and isinstance(n.ast.targets[0], ast.Subscript) and ast.unparse(n.ast.targets[0].value) == "params"]
@@ -85,7 +85,7 @@ def r_visitor(root):
     if not okg:
         out.append(Finding("C22", "C22.g", L, "TextXVisitor.visit_textx_model", "comments_model = self.metamodel['Comment']._tx_peg_rule", "the comment rule's expression is captured before rule references are resolved and never refreshed: a Comment rule that is a single rule reference stays an unresolved reference object and parsing any model fails with AttributeError", witness="Comment: LineComment; LineComment: /\\/\\/.*?$/;"))
     # ---------------- C21.d
-    vs = find(t, "TextXVisitor.visit_str_match"); gs = CFG(vs)
+    vs = find_i(root, L, "TextXVisitor.visit_str_match"); gs = CFG(vs)
     dec = [n for n in gs.nodes if n.ast is not None and n.kind in ("stmt", "cond") and any(callee_name(c) == "decode_escapes" for c in calls(n.ast))]
     kw = [n for n in gs.nodes if n.ast is not None and n.kind in ("stmt", "cond") and any(callee_name(c) == "match" and "keyword_regex" in ast.unparse(c.func) for c in calls(n.ast))]
     if not dec or not kw: raise AnalysisError("visit_str_match: decode / keyword test not found")
